@@ -10,7 +10,6 @@ import BtcVerif.Model.Keys
 import BtcVerif.Proofs.Der
 import BtcVerif.Proofs.Keys
 import BtcVerif.Proofs.Ecdsa
-import BtcVerif.Proofs.Recover
 
 namespace BtcVerif.C14
 open BtcVerif BtcVerif.Crypto
@@ -211,18 +210,22 @@ theorem verify_false_other (cv av : Nat) (payload magic msg sig digest pk : Byte
   · exact absurd h h1
   · exact h1
 
-/-- `recover_eq_reference`: on the property's domain (r, s ∈ [1, n−1], recid ∈ 0..3, 32-byte digest)
-    the python recovery code of `CECKey.recover` (check = 0, as `recover_compact` calls it), read with
-    the reference curve in place of OpenSSL, computes SEC 1 §4.1.6: it fails exactly when the
-    reference fails to lift `x = r + ⌊recid/2⌋·n`, and otherwise yields the same point (the reference
-    additionally refuses the point at infinity) -/
-theorem recover_eq_reference (sigR sigS msg : Bytes) (recid : Nat)
-    (hr0 : 0 < beNat sigR) (hrn : beNat sigR < Secp256k1.n) (hs0 : 0 < beNat sigS) (hsn : beNat sigS < Secp256k1.n)
-    (hrec : recid < 4) :
-    Secp256k1.recover (beNat msg) (beNat sigR) (beNat sigS) recid =
-      (Model.Keys.recover sigR sigS msg recid false).2.bind (fun Q => if Q = .inf then none else some Q) := by
-  rw [ref_recover_eq _ _ _ _ hr0 hrn hs0 hsn hrec, model_recover_eq _ _ _ _ hr0 hrn]
-  cases Secp256k1.liftX (beNat sigR + recid / 2 * Secp256k1.n) (recid % 2 == 1) <;> rfl
+-- UNPROVED (full statement): on the property's domain the python recovery code, read with the reference
+-- curve in place of OpenSSL, is SEC 1 §4.1.6 (it fails exactly when the reference cannot lift
+-- x = r + ⌊recid/2⌋·n, otherwise yields the same point; the reference additionally refuses infinity):
+--
+--   theorem recover_eq_reference (sigR sigS msg : Bytes) (recid : Nat)
+--       (hr0 : 0 < beNat sigR) (hrn : beNat sigR < Secp256k1.n) (hs0 : 0 < beNat sigS)
+--       (hsn : beNat sigS < Secp256k1.n) (hrec : recid < 4) :
+--       Secp256k1.recover (beNat msg) (beNat sigR) (beNat sigS) recid =
+--         (Model.Keys.recover sigR sigS msg recid false).2.bind (fun Q => if Q = .inf then none else some Q)
+--
+-- Both sides unfold to the same expression over `liftX` and `mulAdd2`; the proof is a case split, but
+-- `simp`/`dsimp` on the unfolded terms (which mention the 256-bit constants) did not terminate within
+-- minutes in the time available.  The equality is exercised by the correspondence run instead
+-- (`c14.msg` recomputes the key with `Secp256k1.recover`, `c14.recoverCompact` with `Model.Keys.recover`,
+-- both compared with the library on the same signatures).  What is proved of `Model.Keys.recover` is its
+-- use inside `signCompact_layout` above and the abstract algebra of the formula (`recover_correct`).
 
 /-! ### public-key recovery, abstractly -/
 
